@@ -216,6 +216,24 @@ def match(p, n, env: Env) -> bool:
             return match(a, b, env)
         return (isinstance(n, ast.Slice) and opt(p.lower, n.lower)
                 and opt(p.upper, n.upper) and opt(p.step, n.step))
+    if isinstance(p, (ast.ListComp, ast.SetComp, ast.GeneratorExp)):
+        if type(n) is not type(p) or len(n.generators) != len(p.generators):
+            return False
+        for pg, ng in zip(p.generators, n.generators):
+            if not (match(pg.target, ng.target, env)
+                    and match(pg.iter, ng.iter, env)
+                    and len(pg.ifs) == len(ng.ifs)
+                    and all(match(a, b, env)
+                            for a, b in zip(pg.ifs, ng.ifs))):
+                return False
+        return match(p.elt, n.elt, env)
+    if isinstance(p, ast.Dict):
+        return (isinstance(n, ast.Dict) and len(p.keys) == len(n.keys)
+                and all((a is None and b is None) or (
+                    a is not None and b is not None and match(a, b, env))
+                    for a, b in zip(p.keys, n.keys))
+                and all(match(a, b, env)
+                        for a, b in zip(p.values, n.values)))
     if isinstance(p, ast.JoinedStr):
         return isinstance(n, ast.JoinedStr) and norm(p) == norm(n)
     return False
